@@ -487,28 +487,30 @@ prop(
     ["token spans lie inside the source on ASCII text (what the lexer harnesses establish)",
      "Dir tokens other than .orig do not survive preprocessing"],
 )
-for arm in ("hex", "zero", "dec", "dir", "str", "reg", "ident", "comment_ws", "unknown"):
-    H("C05", f"lexer::verif_h::c05_lex_{arm}_arm", LEX, covers=2, stubs=[FMT, KW], timeout=2400, mem_gb=20,
-      functions=["Cursor::advance_token", "Cursor::hex", "Cursor::dec", "Cursor::str", "Cursor::dir", "Cursor::ident", "Cursor::take_while", "Cursor::get_range",
-                 "error::lex_*"],
-      what=f"lexer arm '{arm}': first character of the arm + every valid-UTF-8 continuation of <= 2 bytes; first and second token",
-      bounds="text <= 3 bytes")
+for arm in ("hex_arm_2", "hex_arm_3", "zero_arm_2", "zero_arm_3", "dec_arm_2", "dec_arm_3", "dir_arm_2", "dir_arm_3", "str_arm_2", "str_arm_3",
+            "reg_arm_2", "reg_arm_3", "ident_arm_2", "ident_arm_3", "comment_arm_3", "ws_arm_3", "unknown_arm_2", "unknown_arm_3"):
+    H("C05", f"lexer::verif_h::c05_lex_{arm}", LEX, tier=("quick" if arm in ("hex_arm_2", "hex_arm_3", "dec_arm_2", "str_arm_2", "unknown_arm_2", "reg_arm_2") else "thorough"),
+      covers=0, stubs=[FMT, KW], timeout=3000, mem_gb=24,
+      functions=["Cursor::advance_token", "Cursor::hex", "Cursor::dec", "Cursor::str", "Cursor::dir", "Cursor::ident", "Cursor::take_while", "Cursor::get_range", "error::lex_*"],
+      what=f"lexer arm {arm}: the arm's first character + every valid-UTF-8 continuation making a text of exactly that many bytes: no panic, spans inside the source",
+      bounds="text of exactly 2 / 3 bytes; first token")
 H("C05", "lexer::verif_h::c05_lex_multibyte_first", LEX, covers=1, stubs=[FMT, KW], timeout=2400, functions=["Cursor::advance_token", "error::lex_unknown"],
   what="2-byte / 4-byte first character, optionally followed by any ASCII byte: diagnostic, spans inside the source", bounds="<= 5 bytes")
 H("C05", "lexer::verif_h::c05_display_all_kinds", LEX, covers=2, functions=["<TokenKind as Display>::fmt"],
   what="Display for every token kind a preprocessed stream can contain (incl. Byte, Breakpoint)", bounds="complete")
-for nm, q in [("add", True), ("ldr", False), ("not", True), ("br", True), ("ld", False), ("jsr", False), ("call", True), ("jmp", False)]:
-    H("C05", f"parser::verif_h::c05_parse_total_{nm}", PAR, tier=("quick" if q else "thorough"), covers=2, stubs=PE_STUBS, timeout=3000, mem_gb=24,
-      allow_unsat=["TokenKind::Byte"] if False else [],
-      functions=["AsmParser::parse_instr", "AsmParser::expect*"], what=f"parse_instr({nm.upper()}) on operand tokens of any kind and count: total",
-      bounds="<= 3 operand tokens; 8-byte ASCII source")
+for nm, q in [("add_3", True), ("add_1", False), ("ldr_3", False), ("not_2", True), ("not_0", False), ("br_1", True), ("ld_2", False), ("jsr_1", False),
+              ("call_1", True), ("jmp_1", False)]:
+    H("C05", f"parser::verif_h::c05_parse_total_{nm}", PAR, tier=("quick" if q else "thorough"), covers=1, stubs=PE_STUBS, timeout=3000, mem_gb=30,
+      functions=["AsmParser::parse_instr", "AsmParser::expect*"], what=f"parse_instr({nm}: mnemonic_number-of-operand-tokens) on operand tokens of any kind: total",
+      bounds="exactly that many operand tokens of any kind; 8-byte ASCII source")
 H("C05", "parser::verif_h::c05_parse_total_trap", PAR, covers=2, stubs=PE_STUBS, timeout=3000, mem_gb=24, functions=["AsmParser::parse_trap"],
   what="parse_trap (any trap kind) on <= 1 token of any kind", bounds="<= 1 operand token")
-H("C05", "parser::verif_h::c05_parse_loop_total", PAR, covers=3, timeout=3000, mem_gb=24,
-  stubs=PE_STUBS + ["AsmParser::parse_instr / parse_trap -> any result (their contract)", "error::parse_duplicate_label -> contract"],
-  functions=["AsmParser::parse", "AsmParser::optional_label", "Air::add_stmt", "Air::set_orig", "Breakpoints::insert", "Label::insert"],
-  what="parse() on <= 3 tokens of any kind from any starting line number: Ok or Err, never a panic (line counter, assert on .orig, span arithmetic)",
-  bounds="<= 3 tokens")
+for n in (1, 2):
+    H("C05", f"parser::verif_h::c05_parse_loop_total_{n}", PAR, tier=("quick" if n == 1 else "thorough"), covers=1, timeout=3000, mem_gb=30,
+      stubs=PE_STUBS + ["AsmParser::parse_instr / parse_trap -> any result (their contract)", "error::parse_duplicate_label -> contract"],
+      functions=["AsmParser::parse", "AsmParser::optional_label", "Air::add_stmt", "Air::set_orig", "Breakpoints::insert", "Label::insert"],
+      what=f"parse() on exactly {n} token(s) of any kind from any starting line number: Ok or Err, never a panic (line counter, assert on .orig, span arithmetic)",
+      bounds=f"{n} token(s)")
 H("C05", "air::verif_h::c04_bit_offs", AIR, covers=3, stubs=[FMT], functions=["AsmLine::bit_offs"], what="bit_offs total at the i16 extremes", bounds="complete")
 
 prop(
@@ -542,12 +544,20 @@ for nm, q in [("hex", True), ("hex_neg", False), ("dec", False), ("dec_neg", Tru
         H(pp, f"lexer::verif_h::c01_literal_{nm}", LEX, tier=("quick" if q and pp == "C01" else "thorough"), covers=2, stubs=[FMT, KW], timeout=2400, mem_gb=20,
           functions=["Cursor::advance_token", "Cursor::hex", "Cursor::dec"],
           what=f"literal spelling '{nm}' with 1..3 symbolic digits: token value == numeric value (two's complement), token spans the literal", bounds="<= 3 digits")
-H("C17", "parser::verif_h::c17_statement_span_and_break", PAR, covers=2, stubs=PE_STUBS, timeout=2400, mem_gb=20,
-  functions=["AsmParser::parse", "AsmParser::expect_reg", "Air::add_stmt"], what="statement span = mnemonic .. last consumed operand, for arbitrary increasing token spans; operand-less statement", bounds="one statement")
-H("C11", "parser::verif_h::c17_statement_span_and_break", PAR, covers=2, stubs=PE_STUBS, timeout=2400, mem_gb=20,
-  functions=["AsmParser::parse", "Breakpoints::insert"], what=".break marks the next statement's index, occupies no word, is flagged predefined", bounds="one statement")
-H("C17", "debugger::asm::verif_h::c17_source_statement_lookup", ASMF, covers=3, timeout=2400, functions=["AsmSource::get_source_statement", "AsmSource::get_single_line"],
-  what="address -> statement (address - origin) or nothing; shown text = statement span", bounds="<= 3 statements; 8-byte source")
+SPAN_STUBS = PE_STUBS + ["AsmParser::parse_instr -> the NOT / RET arm (two registers through the real expect_reg / nothing)"]
+for nm, props in [("c17_span_not", ["C17"]), ("c17_span_break_not", ["C17", "C11"]), ("c17_span_ret", ["C17"])]:
+    for pp in props:
+        H(pp, f"parser::verif_h::{nm}", PAR, covers=1, stubs=SPAN_STUBS, timeout=2400, mem_gb=24,
+          functions=["AsmParser::parse", "AsmParser::expect_reg", "AsmParser::expect_where", "Air::add_stmt", "Breakpoints::insert"],
+          what="statement span = mnemonic .. last consumed operand for arbitrary increasing token spans; .break marks the next statement's index, no word, predefined",
+          bounds="one statement")
+for n in (0, 1, 3):
+    H("C17", f"debugger::asm::verif_h::c17_source_lookup_{n}", ASMF, tier=("quick" if n == 1 else "thorough"), covers=2, timeout=2400, mem_gb=20,
+      allow_unsat=["idx < 0"] if False else [],
+      functions=["AsmSource::get_source_statement", "AsmSource::get_single_line"],
+      what=f"address -> statement (address - origin) or nothing, {n} statements; shown text = statement span", bounds=f"{n} statements; 8-byte source")
+    H("C09", f"debugger::asm::verif_h::c17_source_lookup_{n}", ASMF, tier="thorough", covers=2, timeout=2400, mem_gb=20,
+      functions=["AsmSource::get_source_statement"], what="`assembly` on any address never panics", bounds=f"{n} statements")
 
 NAMEF = "src/debugger/command/parse/name.rs"
 for k in range(6):
@@ -594,3 +604,19 @@ for nm, q in [("char_len1", True), ("backspace_len2", False), ("delete_len2", Fa
       functions=["Terminal::handle_key", "Terminal::update_next", "Terminal::get_current", "find_word_next", "find_word_back", "insert_char_index", "remove_char_index"],
       what=f"one handle_key step ({nm}) from every editor state of the bound: cursor in [0,#chars], buffer/cursor/submission equal the reference editor",
       bounds="buffers of exactly 1 or 2 characters over the 5-character alphabet (enumerated), every cursor, empty history; typed character symbolic")
+
+TRAP_STUBS = [FMT, "runtime::read_char -> next element of the harness's input queue (ASCII or U+FFFD), exit(1) at end of input",
+              "Output::print_fmt -> capture sink (program output as code points)", EXIT]
+for nm, what, props, nc in [
+    ("c03_trap_getc_in_out", "GETC / OUT / IN: register frame, exactly one input character consumed, exactly the documented character printed", ["C03", "C02"], 3),
+    ("c03_trap_input_eof", "GETC / IN at end of input: exit(1)", ["C03"], 1),
+    ("c03_trap_halt_putn", "HALT: PC = 0xFFFF only; PUTN: R0 as signed decimal (length, sign, first and last digit)", ["C03", "C02"], 2),
+    ("c03_trap_puts", "PUTS: characters up to the first zero word", ["C03"], 2),
+    ("c03_trap_putsp", "PUTSP: bytes up to the first zero byte", ["C03"], 1),
+    ("c02_trap_unknown_vector", "every trap vector outside x20..x27: exit(0xEE), nothing executed", ["C02", "C03"], 1),
+    ("c03_trap_reg", "REG: prints, machine untouched", ["C03"], 1),
+]:
+    for pp in props:
+        H(pp, f"runtime::verif_h::{nm}", RT, uf=True, covers=nc, stubs=TRAP_STUBS, timeout=2400, mem_gb=20,
+          functions=["RunState::trap", "Output::print", "Output::print_decimal", "Output::print_registers"], what=what,
+          bounds="strings <= 3 words (PUTS) / 2 words (PUTSP), not running through 0xFFFF; input queue <= 2 characters")
